@@ -779,7 +779,13 @@ impl Server {
             let response = if let Some(sync_resp) = sync_response {
                 sync_resp
             } else {
-                self.process_frame(frame, id)?
+                match self.process_frame(frame, id) {
+                    Ok(resp) => resp,
+                    // Only a failure of the connection itself ends it; a command that cannot be
+                    // carried out (wrong type, missing key, ...) is answered with an error reply.
+                    Err(e @ FerrousError::Connection(_)) => return Err(e),
+                    Err(e) => Self::error_reply(&e),
+                }
             };
             responses.push(response);
         }
@@ -874,6 +880,24 @@ impl Server {
         }).unwrap_or(Ok(false))?;
         
         Ok(has_pending_writes)
+    }
+    
+    /// Convert a command-level error into a single-line RESP error reply
+    fn error_reply(e: &FerrousError) -> RespFrame {
+        use crate::error::{CommandError, StorageError};
+        let msg = match e {
+            FerrousError::Storage(StorageError::WrongType) | FerrousError::Command(CommandError::WrongType) => {
+                CommandError::WrongType.to_string()
+            }
+            FerrousError::Storage(StorageError::KeyNotFound) => CommandError::NoSuchKey.to_string(),
+            other => {
+                let text = other.to_string();
+                let has_code = text.split(' ').next()
+                    .map_or(false, |w| !w.is_empty() && w.chars().all(|c| c.is_ascii_uppercase()));
+                if has_code { text } else { format!("ERR {}", text) }
+            }
+        };
+        RespFrame::error(msg.replace('\r', " ").replace('\n', " "))
     }
     
     /// Process connections with pending writes
